@@ -32,6 +32,7 @@ type SeqProfile struct {
 	PObserve  float64 // the body looks at the collection from a second transaction (dump) at some point
 	PDelAll   float64 // a body step narrows the selection with a filter and deletes all of it (txn.DeleteAll)
 	PDropCol  float64 // a schema step may drop a data column (and later create it again)
+	Wide      bool    // row accesses write most of the columns, not a few
 	SortFirst bool    // create the sorted indexes before any data
 	IdxFirst  bool    // create the bitmap indexes and triggers before any data, in the order listed
 	PIdxStep  float64 // probability that a schema step is an index create / drop (else the kind is drawn uniformly)
@@ -134,6 +135,14 @@ func (g *seqGen) dump() {
 			g.R2.Dump(g.dumpN % 3)
 		}
 	}
+}
+
+// nwrites: wide profiles write most columns of the row in one go
+func (g *seqGen) nwrites(n int) int {
+	if g.p.Wide && g.rnd.Intn(2) == 0 {
+		return 12 + g.rnd.Intn(24)
+	}
+	return n
 }
 
 func (g *seqGen) isDropped(name string) bool {
@@ -514,7 +523,7 @@ func RunSeq(seed int64, p SeqProfile) (out []Ev) {
 				switch {
 				case r < p.PInsert:
 					fail := g.rnd.Float64() < p.PFailIns
-					x.Insert(g.writes(g.P.Cols, g.rnd.Intn(4), 0, false), fail)
+					x.Insert(g.writes(g.P.Cols, g.nwrites(g.rnd.Intn(4)), 0, false), fail)
 					if fail && g.rnd.Float64() < 0.7 {
 						rollback = true // the usual pattern: the callback's error is returned
 					}
@@ -524,7 +533,7 @@ func RunSeq(seed int64, p SeqProfile) (out []Ev) {
 					}
 				default:
 					if o, ok := g.pick(); ok {
-						x.At(o, g.writes(g.P.Cols, 1+g.rnd.Intn(3), o, true), g.rnd.Intn(3) == 0, g.rnd.Intn(3))
+						x.At(o, g.writes(g.P.Cols, g.nwrites(1+g.rnd.Intn(3)), o, true), g.rnd.Intn(3) == 0, g.rnd.Intn(3))
 					}
 				}
 			}
